@@ -1,3 +1,25 @@
 import Uflow.Props.C11
 open Uflow.Props.C11
 #print axioms C11_sync_timeout_ge
+#print axioms C11_sync_emitted
+#print axioms C11_sync_frame_content
+#print axioms C11_sync_clock_trap
+#print axioms C11_sync_handled
+#print axioms C11_sync_handled_total
+#print axioms C11_ackq_resynchronize
+#print axioms C11_sync_answered
+#print axioms C11_ack_frame_content
+#print axioms C11_sync_answer_postponed
+#print axioms C11_sync_answered_flush
+#print axioms C11_ack_advances
+#print axioms C11_window_reopens_frames
+#print axioms C11_window_reopens_packets
+#print axioms C11_ack_stale_noop
+#print axioms C11_sync_rearmed_data
+#print axioms C11_sync_rearmed_sync
+#print axioms C11_sync_rearmed
+#print axioms C11_only_flush_touches_sync
+#print axioms C11_sync_becomes_due
+#print axioms C11_sync_emitted_flush
+#print axioms C11_full_window_unacked
+#print axioms C11_full_window_cycle
